@@ -59,11 +59,11 @@ Definition md_bounds (st : dstate) (buf : list byte) (r : dres) (st' : dstate) (
 (* states the decoder produces: a held message is exactly the decoded data *)
 Definition dwf (st : dstate) : Prop := forall c, dmsg st = Some c -> c = dlen st /\ dcode st = 0.
 
-Theorem dec_regular_touches v st buf frags peek : dwf st ->
-  let '(r, st', buf') := dec_regular v st buf frags peek in
+Theorem dec_regular_touches v st buf frags res peek : dwf st ->
+  let '(r, st', buf') := dec_regular_res v st buf frags res peek in
   touches_only st buf st' buf' /\ md_bounds st buf r st' buf'.
 Proof.
-  intros Hwf. unfold dec_regular.
+  intros Hwf. unfold dec_regular_res.
   set (L := if peek then Nat.min (length buf) (hd 0 frags) else length buf).
   assert (HL : L <= length buf) by (unfold L; destruct peek; lia).
   set (dl := dpos st + dlen st).
@@ -92,20 +92,20 @@ Proof.
   set (proc0 := dcurr st - dl) in *.
   assert (Hal : forall x, (if (mlen =? 0) && (dcode st1 =? 0) then
              if peek then None else
-             let '(off, rest) := locate (if peek then firstn 1 frags else frags) dl in
-             let post := align_post off rest proc0 in
+             let '(rs, off, rest) := locate (if peek then firstn 1 frags else frags) res dl in
+             let post := align_post (rs + off) rest proc0 in
              Some (dl + post, proc0 - post, mkd (dcode st1) (dpos8 st1) (dcurr st1) (dl + post) (dlen st1) (dmsg st1))
            else Some (done, proc0, st1)) = Some x ->
          let '(done2, proc2, st2) := x in dl <= done2 + mlen /\ dl <= dpos st2 + mlen /\ dpos st2 <= done2).
   { intros [[done2 proc2] st2]. destruct (Nat.eqb_spec mlen 0) as [Em0|Em0]; cbn [andb]; [destruct (Nat.eqb_spec (dcode st1) 0)|].
     - destruct peek; [discriminate|].
-      destruct (locate frags dl) as [off rest]. intros H. inversion H; subst. cbn [dcode dpos]. repeat split; lia.
+      destruct (locate frags res dl) as [[rs off] rest]. intros H. inversion H; subst. cbn [dcode dpos]. repeat split; lia.
     - intros H. inversion H; subst. repeat split; lia.
     - intros H. inversion H; subst. repeat split; lia. }
   destruct (if (mlen =? 0) && (dcode st1 =? 0) then
              if peek then None else
-             let '(off, rest) := locate (if peek then firstn 1 frags else frags) dl in
-             let post := align_post off rest proc0 in
+             let '(rs, off, rest) := locate (if peek then firstn 1 frags else frags) res dl in
+             let post := align_post (rs + off) rest proc0 in
              Some (dl + post, proc0 - post, mkd (dcode st1) (dpos8 st1) (dcurr st1) (dl + post) (dlen st1) (dmsg st1))
            else Some (done, proc0, st1)) as [[[done2 proc2] st2]|] eqn:Ea; [|split; [apply touches_same|exact I]].
   specialize (Hal _ eq_refl). cbn beta iota in Hal. destruct Hal as (Hw2 & Hlo2 & Hd2).
@@ -148,10 +148,10 @@ Proof.
 Qed.
 
 (* the decoder keeps its state well formed *)
-Lemma dec_regular_dwf v st buf frags peek : dwf st ->
-  let '(r, st', buf') := dec_regular v st buf frags peek in dwf st'.
+Lemma dec_regular_dwf v st buf frags res peek : dwf st ->
+  let '(r, st', buf') := dec_regular_res v st buf frags res peek in dwf st'.
 Proof.
-  intros Hwf. unfold dec_regular.
+  intros Hwf. unfold dec_regular_res.
   destruct ((dcurr st <? dpos st + dlen st) || _); [assumption|].
   assert (Hprev : forall x, (match dmsg st with
          | Some c => if peek then None
@@ -166,15 +166,15 @@ Proof.
   specialize (Hprev _ eq_refl). cbn beta iota in Hprev.
   assert (Hal : forall x, (if (mlen =? 0) && (dcode st1 =? 0) then
              if peek then None else
-             let '(off, rest) := locate (if peek then firstn 1 frags else frags) (dpos st + dlen st) in
-             let post := align_post off rest (dcurr st - (dpos st + dlen st)) in
+             let '(rs, off, rest) := locate (if peek then firstn 1 frags else frags) res (dpos st + dlen st) in
+             let post := align_post (rs + off) rest (dcurr st - (dpos st + dlen st)) in
              Some (dpos st + dlen st + post, dcurr st - (dpos st + dlen st) - post,
                    mkd (dcode st1) (dpos8 st1) (dcurr st1) (dpos st + dlen st + post) (dlen st1) (dmsg st1))
            else Some (done, dcurr st - (dpos st + dlen st), st1)) = Some x ->
          let '(done2, proc2, st2) := x in dmsg st2 = None).
   { intros [[done2 proc2] st2]. destruct (mlen =? 0); cbn [andb]; [destruct (dcode st1 =? 0)|].
     - destruct peek; [discriminate|].
-      destruct (locate frags (dpos st + dlen st)) as [off rest]. intros H. inversion H; subst. assumption.
+      destruct (locate frags res (dpos st + dlen st)) as [[rs off] rest]. intros H. inversion H; subst. assumption.
     - intros H. inversion H; subst. assumption.
     - intros H. inversion H; subst. assumption. }
   destruct (if (mlen =? 0) && (dcode st1 =? 0) then _ else _) as [[[done2 proc2] st2]|]; [|intros c Hc; rewrite Hprev in Hc; discriminate].
@@ -190,14 +190,14 @@ Proof.
 Qed.
 
 (* the complete decoder entry (COBS/R wrapper included) *)
-Theorem dec_call_touches v st buf frags peek : dwf st ->
-  let '(r, st', buf') := dec_call v st buf frags peek in
+Theorem dec_call_touches_res v st buf frags res peek : dwf st ->
+  let '(r, st', buf') := dec_call_res v st buf frags res peek in
   touches_only st buf st' buf' /\ dwf st'.
 Proof.
-  intros Hwf. unfold dec_call.
-  pose proof (dec_regular_touches v st buf frags peek Hwf) as Ht.
-  pose proof (dec_regular_dwf v st buf frags peek Hwf) as Hd.
-  destruct (dec_regular v st buf frags peek) as [[r st'] buf']. destruct Ht as [Ht Hb].
+  intros Hwf. unfold dec_call_res.
+  pose proof (dec_regular_touches v st buf frags res peek Hwf) as Ht.
+  pose proof (dec_regular_dwf v st buf frags res peek Hwf) as Hd.
+  destruct (dec_regular_res v st buf frags res peek) as [[r st'] buf']. destruct Ht as [Ht Hb].
   destruct (inl v); [|split; assumption].
   destruct r as [| |e|]; try (split; assumption).
   destruct e; try (split; assumption).
@@ -217,3 +217,8 @@ Proof.
       rewrite (E buf'), (E buf), Hsk. reflexivity.
   - intros c Hc. cbn [dmsg dlen dcode] in *. inversion Hc. split; reflexivity.
 Qed.
+
+Theorem dec_call_touches v st buf frags peek : dwf st ->
+  let '(r, st', buf') := dec_call v st buf frags peek in
+  touches_only st buf st' buf' /\ dwf st'.
+Proof. intros Hwf. apply (dec_call_touches_res v st buf frags [] peek Hwf). Qed.
